@@ -729,7 +729,7 @@ def run(ctx, replay=None):
     ctx.rule += ("; PLUS composite kernels (WarpedKernel with 1..3 Warping blocks incl. non-contiguous ranges and "
                  "Kumaraswamy parameters away from 1, ProductKernelFunction, RangeKernelFunction, "
                  "ExponentialDecayResourcesKernelFunction as plain kernels): kernel matrices, predict, likelihood, "
-                 "incremental-vs-scratch against an independent numpy implementation; PLUS a few LARGE data sets (n 64/128/260, covariance scale and noise at the ends of their boxes): likelihood and two predictions against the slogdet-based dense reference; PLUS, for every state, all input arrays are overwritten in place afterwards and predict / likelihood / update must be bit-identical; PLUS 1-D target vectors handed to the state classes directly; PLUS fit streams on GaussianProcessRegression (first fit, refit on more data with every optimiser restart failing through a harness-side mock, refit): predict = dense posterior of the data of that fit under get_params()")
+                 "incremental-vs-scratch against an independent numpy implementation; PLUS a few LARGE data sets (n 64/128/260, covariance scale and noise at the ends of their boxes): likelihood and two predictions against the slogdet-based dense reference; PLUS, for every state, all input arrays are overwritten in place afterwards and predict / likelihood / update must be bit-identical; PLUS 1-D target vectors handed to the state classes directly; PLUS fit streams on GaussianProcessRegression (first fit, refit on more data with every optimiser restart failing through a harness-side mock, refit): predict = dense posterior of the data of that fit under get_params(); PLUS operation sequences over {fit, failing fit, set_params, reset_params, recompute_states(same dict object), recompute_states(fresh equal dict), grow the dict in place + recompute_states} with the same check after every step that (re)computes the state")
     if replay is not None:
         if replay.get("kind") == "gpc":
             import warnings
@@ -740,6 +740,12 @@ def run(ctx, replay=None):
             for i in ctx.coq_bad_cases("ckernel", IMPORTS, PRELUDE, "chk_ckernel", ck_cases, shard=40):
                 ctx.violation("correspondence", "model composite kernel matrix differs from the implementation", case=ck_meta[i],
                               failing_input=False, broken="correspondence chk_ckernel (model/GPLin.v warped/product/range kernel)")
+            return
+        if replay.get("kind") == "gps":
+            import warnings
+            with warnings.catch_warnings():
+                warnings.simplefilter("ignore")
+                gplin_composite.run_seq(ctx, replay["spec"])
             return
         if replay.get("kind") == "gpf":
             import warnings
@@ -756,12 +762,13 @@ def run(ctx, replay=None):
         if replay.get("kind") != "gp":
             return
         specs = [replay["spec"]]
-        cspecs, lspecs, fspecs = [], [], []
+        cspecs, lspecs, fspecs, qspecs = [], [], [], []
     else:
         specs = [gen_spec(rng) for _ in range(ctx.n(400, 3000))]
         cspecs = [gplin_composite.gen_spec(rng) for _ in range(ctx.n(250, 2000))]
         lspecs = [gplin_composite.gen_large(rng, k_) for k_ in range(ctx.n(6, 36))]
         fspecs = [gplin_composite.gen_fit(rng, k_) for k_ in range(ctx.n(6, 40))]
+        qspecs = [gplin_composite.gen_seq(rng, k_) for k_ in range(ctx.n(12, 80))]
     cases_k, cases_g, meta, kmeta, jit_cases, jit_meta = [], [], [], [], [], []
     ck_cases, ck_meta = [], []
     import warnings
@@ -788,6 +795,8 @@ def run(ctx, replay=None):
             gplin_composite.run_large(ctx, lspec)
         for fspec in fspecs:
             gplin_composite.run_fit(ctx, fspec)
+        for qspec in qspecs:
+            gplin_composite.run_seq(ctx, qspec)
     for i in ctx.coq_bad_cases("kernel", IMPORTS, PRELUDE, "chk_kernel", cases_k, shard=40):
         ctx.violation("correspondence", "model Matern-5/2 kernel matrix differs from Matern52.forward/diagonal "
                       "beyond round-off", case=kmeta[i], failing_input=False,
